@@ -82,6 +82,61 @@ let hexbitmap g (vs : (int * int * int) list) =
     (Buffer.contents b, !out)
   end
 
+(* ---- native re-implementation of CsgDefs.alive / uniq_rc (same definitions on int arrays).  The extracted functions
+   work on unary numbers and are quadratic in the number of nodes; they are used (and compared with these, answer by
+   answer) on every heap with fewer than [slow_limit] nodes, the native ones alone on the >1000-operand cases. *)
+let slow_limit = 160
+let fast_mismatch = ref 0
+
+let fast_alive (h : heap) (hs : nat option list) : bool array * node array * int list array =
+  let nodes = Array.of_list h.nodes in
+  let cells = Array.of_list (List.map (fun c -> List.map int_of_nat c) h.cells) in
+  let nn = Array.length nodes in
+  let alive = Array.make nn false in
+  let stack = ref (List.filter_map (function Some id -> Some (int_of_nat id) | None -> None) hs) in
+  while !stack <> [] do
+    (match !stack with
+     | x :: r ->
+       stack := r;
+       if x < nn && not alive.(x) then begin
+         alive.(x) <- true;
+         (match nodes.(x) with
+          | NLeaf _ -> ()
+          | NOp (_, _, c, ca) ->
+            let c = int_of_nat c in
+            if c < Array.length cells then List.iter (fun y -> stack := y :: !stack) cells.(c);
+            (match ca with Some k -> stack := int_of_nat k :: !stack | None -> ()))
+       end
+     | [] -> ())
+  done;
+  (alive, nodes, cells)
+
+let uniq_rc_fast (hs : nat option list) (h : heap) (idn : nat) : bool =
+  let id = int_of_nat idn in
+  let (alive, nodes, cells) = fast_alive h hs in
+  let nn = Array.length nodes in
+  let handles = List.exists (function Some k -> int_of_nat k = id | None -> false) hs in
+  let cell_of x = if x < nn then (match nodes.(x) with NOp (_, _, c, _) -> Some (int_of_nat c) | _ -> None) else None in
+  let live_cell = Array.make (Array.length cells) false in
+  Array.iteri (fun x a -> if a then match cell_of x with Some c when c < Array.length cells -> live_cell.(c) <- true | _ -> ()) alive;
+  let refs = ref 0 in
+  Array.iteri (fun c l -> if l then List.iter (fun y -> if y = id then incr refs) cells.(c)) live_cell;
+  (not handles) && !refs <= 1 &&
+  (match cell_of id with
+   | None -> false
+   | Some c ->
+     let owners = ref 0 in
+     Array.iteri (fun x a -> if a && cell_of x = Some c then incr owners) alive;
+     !owners <= 1)
+
+let uniq_rc_checked (hs : nat option list) (h : heap) (idn : nat) : bool =
+  let f = uniq_rc_fast hs h idn in
+  if List.length h.nodes < slow_limit then begin
+    let s = uniq_rc a_ops hs h idn in
+    if s <> f then incr fast_mismatch;
+    s
+  end else f
+
 let split_on s sep =
   (* split string s on the token sep surrounded by spaces *)
   let toks = List.filter (fun t -> t <> "") (String.split_on_char ' ' s) in
@@ -100,9 +155,13 @@ let dump (s : state) (reg : int array) (nreg : int) : string =
   let nodes = Array.of_list h.nodes in
   let cells = Array.of_list (List.map (fun c -> List.map int_of_nat c) h.cells) in
   let nn = Array.length nodes in
-  (* dead = not reachable from a live handle: the extracted [alive] that uniq_rc uses *)
-  let alive = Array.make nn false in
-  List.iter (fun id -> let i = int_of_nat id in if i < nn then alive.(i) <- true) (C03_model.alive a_ops h s.st_handles);
+  (* dead = not reachable from a live handle: the extracted [alive] that uniq_rc uses (native twin on big heaps) *)
+  let (alive, _, _) = fast_alive h s.st_handles in
+  if nn < slow_limit then begin
+    let a2 = Array.make nn false in
+    List.iter (fun id -> let i = int_of_nat id in if i < nn then a2.(i) <- true) (C03_model.alive a_ops h s.st_handles);
+    if a2 <> alive then incr fast_mismatch
+  end;
   let regk = Hashtbl.create 64 in
   for k = 0 to nreg - 1 do if alive.(reg.(k)) then Hashtbl.replace regk reg.(k) k done;
   let ref_of id =
@@ -237,7 +296,7 @@ let process line =
              let prev = !st in
              let uq_total = ref 0 and uq_agree = ref 0 in
              let uq_rc h idn =
-               let d = uniq_rc a_ops prev.st_handles h idn in
+               let d = uniq_rc_checked prev.st_handles h idn in
                (* counted only where the implementation's answer is observable: the node is alive afterwards *)
                (match Hashtbl.find_opt regtab (int_of_nat idn) with
                 | Some k when List.mem_assoc k post
@@ -277,6 +336,8 @@ let process line =
                                                sz = (fun l -> z_of_int (- (List.length (vox_of (fst l))))); km = nat_of_int 3 });
                         (true, { base_or with uq = (fun h n -> (int_of_nat h.tick + int_of_nat n) mod 3 = 0);
                                               sz = (fun _ -> Z0) }) ] in
+                      (* on the many-operand cases only the main run (explicit stack, derived use counts) is made *)
+                      let alts = if List.length prev.st_heap.nodes >= slow_limit then [] else alts in
                       let nok = ref 0 in
                       List.iter (fun (stk, o) ->
                           match run_hop o stk prev hop with
@@ -286,6 +347,7 @@ let process line =
                           | None -> ()) alts;
                       Printf.printf "ALT %s %d %d %d %d %d %d\n" id j !nok (List.length alts) ncol uqa uqt)))
            end) ops;
+       if !fast_mismatch > 0 then begin Printf.printf "X %s 0 native-refcount-differs-from-extracted %d\n" id !fast_mismatch; fast_mismatch := 0 end;
        Printf.printf "END %s\n" id
      | _ -> ())
 
